@@ -79,7 +79,10 @@ class Enc:
         if sort == "bool":
             return z3.Bool(name)
         if sort == "int":
-            return z3.Int(name)
+            v = z3.Int(name)
+            if hint.startswith("len") or hint.startswith("u:"):
+                self.extra.append(v >= 0)
+            return v
         if sort == "str":
             return z3.String(name)
         if sort == "enum":
@@ -279,6 +282,44 @@ class Enc:
                                 return a >= b
                     except Exception:
                         return None
+        m = re.match(r"^std::ops::Range::<usize> \{ start: (.*), end: (.*) \}$", rhs)
+        if m:
+            lo, hi = self.operand(st, m.group(1)), self.operand(st, m.group(2))
+            if lo is not None and hi is not None:
+                st["range:" + dest] = (lo, hi)
+            return None
+        m = re.match(r"^(?:Len|PtrMetadata)\((?:copy |move )?\(?\*?(_\d+)\)?\)$", rhs)
+        if m:
+            key = "len:" + m.group(1)
+            if key not in st:
+                st[key] = self.fresh("int", "len_%s_bb%d" % (m.group(1), bb))
+            return st[key]
+        m = re.match(r"^(Add|Sub|Rem|Div)\((.*)\)$", rhs)
+        if m:
+            from .parse import split_top
+            ops = split_top(m.group(2))
+            if len(ops) == 2:
+                a, b2 = self.operand(st, ops[0]), self.operand(st, ops[1])
+                if a is not None and b2 is not None and z3.is_int(a) and z3.is_int(b2):
+                    op = m.group(1)
+                    if op == "Add":
+                        return a + b2
+                    if op == "Sub":
+                        return a - b2
+                    if z3.is_int_value(b2) and b2.as_long() > 0:
+                        # unsigned operands: truncating = euclidean
+                        return a % b2 if op == "Rem" else a / b2
+        m = re.match(r"^(Add|Sub)WithOverflow\((.*)\)$", rhs)
+        if m:
+            from .parse import split_top
+            ops = split_top(m.group(2))
+            ty = self.ltype(dest) or ""
+            mt = re.match(r"^\((\w+), bool\)$", ty)
+            if len(ops) == 2 and mt:
+                a, b2 = self.operand(st, ops[0]), self.operand(st, ops[1])
+                if a is not None and b2 is not None and z3.is_int(a) and z3.is_int(b2):
+                    st["place:(%s.0: %s)" % (dest, mt.group(1))] = a + b2 if m.group(1) == "Add" else a - b2
+            return None
         m = re.match(r"^discriminant\((.*)\)$", rhs)
         if m:
             key = "disc:" + m.group(1).strip()
@@ -386,6 +427,12 @@ class Enc:
                 if any(v is None for _, v in vals):
                     continue
                 first = vals[0][1]
+                if isinstance(first, tuple):
+                    # structured facts (ranges, Option<bool>): kept only when all predecessors agree
+                    if all(isinstance(v, tuple) and len(v) == len(first) and all(
+                            (x is y) or (hasattr(x, "eq") and hasattr(y, "eq") and x.eq(y)) or x == y for x, y in zip(v, first)) for _, v in vals):
+                        st[k] = first
+                    continue
                 if all(v.eq(first) for _, v in vals):
                     st[k] = first
                     continue
@@ -397,6 +444,11 @@ class Enc:
                 st[k] = acc
         for l in self.havoc_at.get(b, ()):
             st.pop(l, None)
+            st.pop("range:" + l, None)
+            srt = self.sort_of_type(self.ltype(l))
+            if srt in ("bool", "int"):
+                # arbitrary value at the loop head, but ONE value for all reads in this iteration
+                st[l] = self.fresh(srt, ("u:" if (self.ltype(l) or "").startswith("u") else "") + "havoc_%s_bb%d" % (l, b))
             for k in [k for k in st if k.startswith("disc:") or k.startswith("place:")]:
                 if re.search(r"\b%s\b" % re.escape(l), k):
                     st.pop(k, None)
@@ -407,6 +459,7 @@ class Enc:
         for k in [k for k in st if (k.startswith("disc:") or k.startswith("place:")) and re.search(r"\b%s\b" % re.escape(local), k)]:
             st.pop(k, None)
         st.pop("opt:" + local, None)
+        st.pop("range:" + local, None)
 
     def _run(self):
         self.out_state = {}
@@ -428,7 +481,7 @@ class Enc:
                         st[a] = self.bind[a]
                         self.arg_terms[a] = st[a]
                     elif srt:
-                        st[a] = self.fresh(srt, "arg" + a)
+                        st[a] = self.fresh(srt, ("u:" if (self.ltype(a) or "").startswith("u") else "") + "arg" + a)
                         self.arg_terms[a] = st[a]
             self.val[b] = dict(st)
             for idx, (d, rhs) in enumerate(blk.stmts):
@@ -449,16 +502,19 @@ class Enc:
                     mr = re.match(r"^(?:copy |move )(_\d+)$", rhs)
                     if mr and mr.group(1) in self.ref_of:
                         self.ref_of[local] = self.ref_of[mr.group(1)]
-                v = self.rvalue(st, local, rhs, b, idx)
-                mo = re.match(r"^(?:copy |move )(_\d+)$", rhs)
-                ob = st.get("opt:" + mo.group(1)) if mo else None
                 self._kill(st, local)
+                v = self.rvalue(st, local, rhs, b, idx)
+                mo = re.match(r"^(?:copy |move |&mut |&)(_\d+)$", rhs)
+                ob = st.get("opt:" + mo.group(1)) if mo else None
+                if mo and ("range:" + mo.group(1)) in st:
+                    st["range:" + local] = st["range:" + mo.group(1)]
                 if ob is not None:
                     st["opt:" + local] = ob
                 if v is None:
                     srt = self.sort_of_type(self.ltype(local))
                     # reference to something tracked keeps its value; otherwise fresh
-                    v = self.fresh(srt, "%s_bb%d_%d" % (local, b, idx)) if srt else None
+                    hint = ("u:" if (self.ltype(local) or "").startswith("u") else "") + "%s_bb%d_%d" % (local, b, idx)
+                    v = self.fresh(srt, hint) if srt else None
                 if v is not None:
                     st[local] = v
                 else:
@@ -468,6 +524,24 @@ class Enc:
             if k == "call":
                 dest = t.get("dest")
                 v = self.call_value(st, t, b)
+                # integer ranges: `for i in a..b` / `(a..b).step_by(n)`: every yielded i satisfies a <= i < b
+                if dest and re.match(r"^_\d+$", dest) and t["args"]:
+                    ma = re.match(r"^(?:copy |move )?(_\d+)$", t["args"][0].strip())
+                    rng = st.get("range:" + ma.group(1)) if ma else None
+                    if rng is not None:
+                        if re.search(r"(as IntoIterator>::into_iter|as Iterator>::step_by)$", t["callee"]):
+                            st.pop("range:" + dest, None)
+                            if t["callee"].endswith("step_by") and len(t["args"]) == 2:
+                                stp = self.operand(st, t["args"][1])
+                                if stp is not None and z3.is_int_value(stp) and stp.as_long() > 0:
+                                    rng = (rng[0], rng[1], stp)
+                            self._pending_range = (dest, rng)
+                        elif re.search(r"as Iterator>::next$", t["callee"]):
+                            pv = self.fresh("int", "u:iter_bb%d" % b)
+                            self.extra.append(z3.And(pv >= rng[0], pv < rng[1]))
+                            if len(rng) == 3:
+                                self.extra.append((pv - rng[0]) % rng[2] == 0)
+                            self._pending_place = ("place:((%s as Some).0: usize)" % dest, pv)
                 if isinstance(v, tuple) and dest and re.match(r"^_\d+$", dest):
                     self._kill(st, dest)
                     st["opt:" + dest] = v
@@ -487,6 +561,12 @@ class Enc:
                     mb = re.search(r"(_\d+)", dest)
                     if mb:
                         self._kill(st, mb.group(1))
+                if getattr(self, "_pending_range", None):
+                    st["range:" + self._pending_range[0]] = self._pending_range[1]
+                    self._pending_range = None
+                if getattr(self, "_pending_place", None):
+                    st[self._pending_place[0]] = self._pending_place[1]
+                    self._pending_place = None
                 # arguments passed by &mut may be modified: kill them
                 for x in t["args"]:
                     mm = re.match(r"^(?:move |copy )?(_\d+)$", x.strip())
